@@ -68,3 +68,48 @@ Definition ex_items : items :=
   end.
 
 Definition ex_paths := map (fun e => resolve_type_path ex_reg ex_settings (fst e)) ex_reg.
+
+(** ** non-vacuity: the example satisfies every hypothesis of the fidelity theorem *)
+From V Require Import Proofs.GenProofs Proofs.FidelityBase Proofs.ShapeBool Proofs.Fidelity
+  Proofs.FidelityGen.
+
+Example ex_generate_ok :
+  generate ex_reg ex_settings (types_equal ex_reg) = Ok ex_items /\
+  map fst ex_items = [["a"; "Wrap"]; ["a"; "b"; "Tree"]].
+Proof. vm_compute. split; reflexivity. Qed.
+
+Example ex_skeleton_consistentb : skeleton_consistentb ex_reg ex_settings = true.
+Proof. vm_compute. reflexivity. Qed.
+
+Example ex_skeleton_consistent : skeleton_consistent ex_reg ex_settings.
+Proof. apply skeleton_consistentb_sound. exact ex_skeleton_consistentb. Qed.
+
+Example ex_root_fresh : root_fresh ex_settings.
+Proof. apply root_freshb_sound. vm_compute. reflexivity. Qed.
+
+(** every id resolves, and the two readings agree at the depths 0..6 (computed) *)
+Example ex_all_resolve : forallb (fun x => is_ok x) ex_paths = true.
+Proof. vm_compute. reflexivity. Qed.
+
+Example ex_faithful_upto_6 : faithful_upto ex_reg ex_settings ex_items 7 = true.
+Proof. vm_compute. reflexivity. Qed.
+
+(** ... and at every depth (by the theorem, whose hypotheses are therefore satisfiable) *)
+Example ex_faithful : Faithful ex_reg ex_settings ex_items.
+Proof.
+  eapply generate_faithful;
+    [exact ex_skeleton_consistent|exact ex_root_fresh|exact (proj1 ex_generate_ok)].
+Qed.
+
+(** a coincidence: the second instantiation binds T to the id of the element type of the
+    [Vec<u32>] field, so its own skeleton ([y : Vec<_0>]) differs from the kept one
+    ([y : Vec<u32>]) - the predicate says so *)
+Definition ex_reg_bad : registry :=
+  [ (0, plain (TDPrimitive PU8));
+    (1, plain (TDPrimitive PU32));
+    (2, mk_ty ["a"; "Foo"] [tp "T" 0] (TDComposite [fld "x" 0 "T"; fld "y" 4 "Vec<u32>"]) []);
+    (3, mk_ty ["a"; "Foo"] [tp "T" 1] (TDComposite [fld "x" 1 "T"; fld "y" 4 "Vec<u32>"]) []);
+    (4, plain (TDSequence 1)) ].
+
+Example ex_bad_inconsistent : skeleton_consistentb ex_reg_bad ex_settings = false.
+Proof. vm_compute. reflexivity. Qed.
